@@ -335,20 +335,9 @@ fn exec_heap(case: &Value, out: &mut Outcome) {
             "pstr" | "cstr" => {
                 let s = op["s"].as_str().unwrap_or("");
                 desc = format!("{name}({:?})", s);
-                let predicted = SimHeap::compute_pstr_size(s);
                 let r = if name == "pstr" { heap.allocate_pstr(s) } else { heap.allocate_cstr(s) };
                 match r {
                     Ok(bits) => {
-                        let written = heap.byte_len() - len0;
-                        let allowed = predicted + if name == "cstr" { 8 } else { 0 };
-                        if name == "cstr" && written != predicted && !s.is_empty() {
-                            // not part of the property (no write past the reservation happened), reported
-                            // as a probe only: the functor layout code relies on the size being exact
-                            out.bump("probe.cstr_size_inexact", 1);
-                        }
-                        if written > allowed {
-                            bail!("reservation-exceeded", format!("reservation-exceeded:{name}"), "op {i} {desc}: wrote {written} bytes, reserved {allowed}");
-                        }
                         if let Some(loc) = SimHeap::pstr_loc_of(bits) {
                             let first_seg: String = s.chars().take_while(|c| *c != '\u{0}').collect();
                             if !s.starts_with('\u{0}') {
